@@ -12,9 +12,9 @@ from mc.engine import Acc
 
 LEVEL = 'exploration'
 RULE = ('full product: 6 weight layouts (1..3 replicas; contiguous, strided, irregular) x every non-empty replica subset x '
-        'per-replica subset kind {full, prefix, suffix, every-other, irregular pick} x all_configs {False, True} x call '
-        'form {Obs.reweight, pe.reweight list, Corr.reweight}; every subset with >= 5 configurations of four 8/9-configuration weight chains (thorough: every pair of subsets of a two-replica weight); every misalignment kind must raise; all ordered pairs of '
-        'the layout alphabet for correlate (aligned -> product observable, otherwise exception) incl. Corr.correlate with '
+        'per-replica subset kind {full, prefix, suffix, every-other, every-other / every-third up to the last configuration, irregular pick} x all_configs {False, True} x call '
+        'form {Obs.reweight, pe.reweight list, Corr.reweight} x carrier of the configuration numbers {tight range, list, ndarray}; every subset with >= 5 configurations of four 8/9-configuration weight chains (thorough: every pair of subsets of a two-replica weight); every misalignment kind must raise; all ordered pairs of '
+        'the layout alphabet for correlate (aligned -> product observable, otherwise exception; equally long but different lists on each single replica of 2- and 3-replica pairs) incl. Corr.correlate with '
         'Obs and Corr partners and undefined slices; every set partition of 2- and 3-replica observables in every block '
         'order for merge_obs; qtop_projection on every layout; the reweighted flag through one further arithmetic step and '
         'through merge_obs; operands compared before / after every call, every call repeated with the same objects.  Samples are functions of the configuration number.  Non-trivial = the observable lives on a '
@@ -33,7 +33,7 @@ W_LAYOUTS = [
     {'A|r1': list(range(1, 13)), 'A|r10': [1, 2, 4, 5, 7, 8, 11, 12, 13, 14, 16, 19], 'A|r2': list(range(2, 22, 2))},
     {'A': list(range(5, 17))},
 ]
-KINDS = ['full', 'prefix', 'suffix', 'every-other', 'pick']
+KINDS = ['full', 'prefix', 'suffix', 'every-other', 'every-other-to-end', 'every-third-to-end', 'pick']
 
 
 def subset(cfgs, kind):
@@ -45,6 +45,10 @@ def subset(cfgs, kind):
         return list(cfgs[-6:])
     if kind == 'every-other':
         return list(cfgs[::2])
+    if kind == 'every-other-to-end':       # strided subset that contains the weight's LAST configuration
+        return list(cfgs[1::2])
+    if kind == 'every-third-to-end':
+        return list(cfgs[2::3]) if len(cfgs[2::3]) >= 5 else list(cfgs[-1::-2][::-1][-5:])
     if kind == 'pick':
         return [cfgs[i] for i in (0, 1, 3, 6, 7, 9)]
     raise ValueError(kind)
@@ -70,9 +74,9 @@ def samples_for(layout, fun, key):
     return out
 
 
-def mk(pe, layout, samples):
+def mk(pe, layout, samples, carrier='auto'):
     names = sorted(layout)
-    return pe.Obs([samples[n] for n in names], names, idl=[alpha.idl_carrier(layout[n]) for n in names])
+    return pe.Obs([samples[n] for n in names], names, idl=[alpha.idl_carrier(layout[n], carrier) for n in names])
 
 
 def build(tier, seed):
@@ -168,10 +172,10 @@ def run_rw_allsubsets(pe, acc, case):
     for sub in all_subsets(wl[n0]):
         ol = {n0: sub}
         osamp = samples_for(ol, ofun, ('os', case['w'], tuple(sub)))
-        o = mk(pe, ol, osamp)
-        for allc in (False, True):
-            s = dict(case, subset=sub, all=allc)
-            if 'subset' in case and (case['subset'], case['all']) != (sub, allc):
+        for allc, carrier in itertools.product((False, True), ('auto', 'list')):
+            o = mk(pe, ol, osamp, carrier)
+            s = dict(case, subset=sub, all=allc, carrier=carrier)
+            if 'subset' in case and (case['subset'], case['all'], case.get('carrier', 'auto')) != (sub, allc, carrier):
                 continue
             try:
                 before = (snap(w), snap(o))
@@ -188,7 +192,7 @@ def run_rw_allsubsets(pe, acc, case):
             if bad:
                 acc.fail('reweight:subset:%s' % ('all' if allc else 'own'), s, 'weight on %s, observable on the subset %s, all_configs=%s: %s' % (wl[n0], sub, allc, bad))
             else:
-                acc.ok(('rws', case['w'], tuple(sub), allc), len(sub) < len(wl[n0]), 'reweight-subset')
+                acc.ok(('rws', case['w'], tuple(sub), allc, carrier), len(sub) < len(wl[n0]), 'reweight-subset')
         n += 1
     acc.sample({'kind': 'rw-allsubsets', 'weight': wl, 'subsets': n})
 
@@ -250,15 +254,16 @@ def run_rw(pe, acc, case):
     for kinds in combos:
         ol = {n: subset(wl[n], kd) for n, kd in zip(reps, kinds)}
         osamp = samples_for(ol, ofun, ('o', case['w'], tuple(reps), kinds))
-        o = mk(pe, ol, osamp)
         o2l = {n: subset(wl[n], 'prefix') for n in reps}
         o2samp = samples_for(o2l, ofun, ('o2', case['w'], tuple(reps)))
         o2 = mk(pe, o2l, o2samp)
         for allc in ([case['all']] if 'all' in case else (False, True)):
             exp = expected_reweight(wl, wsamp, ol, osamp, allc)
             exp2 = expected_reweight(wl, wsamp, o2l, o2samp, allc)
-            for form in ([case['form']] if 'form' in case else ('method', 'list', 'corr')):
-                sub = dict(case, kinds=list(kinds), all=allc, form=form)
+            for form, carrier in ([(case['form'], case.get('carrier', 'auto'))] if 'form' in case else itertools.product(('method', 'list', 'corr'), ('auto', 'list', 'ndarray'))):
+                # the observable's configuration numbers handed over as tight range / explicit list / ndarray
+                o = mk(pe, ol, osamp, carrier)
+                sub = dict(case, kinds=list(kinds), all=allc, form=form, carrier=carrier)
                 sig = 'reweight:%s:%s' % ('all' if allc else 'own', form)
                 try:
                     if form == 'method':
@@ -301,7 +306,7 @@ def run_rw(pe, acc, case):
                     acc.fail(sig, sub, 'weight %s, observable on %s (%s), all_configs=%s via %s: %s' % (
                         sorted(wl), reps, kinds, allc, form, bad))
                 else:
-                    acc.ok((case['w'], tuple(reps), kinds, allc, form), set(kinds) != {'full'} or len(reps) < len(wl) or len(wl) > 1, 'reweight')
+                    acc.ok((case['w'], tuple(reps), kinds, allc, form, carrier), set(kinds) != {'full'} or len(reps) < len(wl) or len(wl) > 1, 'reweight')
     # list form with ALL subset-kind combinations in one call, forward and reversed: entries with equally many
     # but different configurations (suffix / every-other / pick) must not influence each other
     if 'kinds' not in case:
@@ -353,6 +358,21 @@ def run_rw_bad(pe, acc, case):
     good = mk(pe, {n0: wl[n0]}, samples_for({n0: wl[n0]}, ofun, 'b4'))
     bads['covariance-input'] = good * pe.cov_Obs(1.0, 0.01, 'cv1')
     bads['several-ensembles'] = good + bads['other-ensemble']
+    # a weight that itself carries a covariance input (with an otherwise perfectly aligned observable)
+    wcov = w * pe.cov_Obs(1.0, 0.01, 'cvw')
+    for allc in (False, True):
+        for form in ('function', 'method', 'corr'):
+            sub = dict(case, bad='weight-with-covariance-input', all=allc, form=form)
+            try:
+                if form == 'function':
+                    r = pe.reweight(wcov, [good], all_configs=allc)
+                elif form == 'method':
+                    r = good.reweight(wcov, all_configs=allc)
+                else:
+                    r = pe.Corr([good, good]).reweight(wcov, all_configs=allc)
+                acc.fail('reweight:misaligned-accepted:weight-with-covariance-input', sub, 'a weight containing a covariance input was accepted (%s, all_configs=%s): %r' % (form, allc, r))
+            except Exception:
+                acc.ok(('bad', case['w'], 'wcov', allc, form), True, 'refused')
     for nm, o in bads.items():
         for allc in (False, True):
             sub = dict(case, bad=nm, all=allc)
@@ -425,6 +445,23 @@ def run_correlate(pe, acc, case):
                 acc.fail('correlate:flag', dict(case, which=nm), bad)
             else:
                 acc.ok(('corr-flag', nm), True, 'flag')
+    # equally long but different configuration lists on ONE replica (each in turn) of a several-replica pair: refused
+    for li in (3, 4):
+        base = W_LAYOUTS[li]
+        xa = mk(pe, base, samples_for(base, wfun, ('cma', li)))
+        for rname in sorted(base):
+            for how in ('shift', 'stretch', 'one-entry'):
+                lb = {n: list(c) for n, c in base.items()}
+                c = lb[rname]
+                lb[rname] = [v + (c[1] - c[0]) for v in c] if how == 'shift' else ([2 * v for v in c] if how == 'stretch' else c[:-1] + [c[-1] + 1])
+                xb = mk(pe, lb, samples_for(lb, ofun, ('cmb', li, rname, how)))
+                for nm, x, y in (('ab', xa, xb), ('ba', xb, xa)):
+                    sub = dict(case, layout=li, replica=rname, how=how, order=nm)
+                    try:
+                        r = pe.correlate(x, y)
+                        acc.fail('correlate:misaligned-accepted:one-replica', sub, 'replica %s of the second operand lives on %s instead of %s (same length; other replicas aligned): correlate returned %r' % (rname, lb[rname], base[rname], r))
+                    except Exception:
+                        acc.ok(('corr-bad3', li, rname, how, nm), True, 'refused')
     cv = o * pe.cov_Obs(1.0, 0.01, 'cv1')
     other = mk(pe, {'B|r1': list(range(1, 13))}, samples_for({'B|r1': list(range(1, 13))}, ofun, 'cq'))
     for nm, x, y in (('cov-first', cv, o), ('cov-second', o, cv), ('multi-ens', o + other, o + other)):
